@@ -67,8 +67,10 @@ impl Scenario {
         Self::with_connect(ctx, hook, None)
     }
     pub fn with_connect(ctx: Sh, hook: Hook, connect: Option<Box<dyn FnMut(&mut TermState, &mut Ctx, usize) -> Accept>>) -> Scenario {
+        Self::full(ctx, hook, connect, Rc::new(RefCell::new(vec![])))
+    }
+    pub fn full(ctx: Sh, hook: Hook, connect: Option<Box<dyn FnMut(&mut TermState, &mut Ctx, usize) -> Accept>>, stall: Rc<RefCell<Vec<usize>>>) -> Scenario {
         let st = Rc::new(RefCell::new(ScenSt::default()));
-        let stall = Rc::new(RefCell::new(vec![]));
         let sim = Sim::new(ctx, Box::new(ScenPolicy { st: st.clone(), hook, connect, stall_writes_on: stall.clone() }));
         Scenario { sim, st, stall_writes_on: stall }
     }
